@@ -595,3 +595,47 @@ PROPS["C15"]["level_text"] += (
     "(C15_system_listener_lookup); in every reachable state (all scenes, all histories) the tracks are clean, so a "
     "top-level spatial track whose listener was dropped is exactly silent in the next callback "
     "(C15_system_reachable_dropped_listener_silent)")
+
+# --- gaps found by the second round of seeded changes ---
+# C18 ("streaming the same file yields the same frames … from any start position and after any sequence of seeks"):
+# the C09 side-by-side suite also serves C18 — its decoder is ahead of the playback (the wav suite renders every frame
+# as soon as it is decoded), so a seek_by measured from the decoder's position instead of the playback position shows,
+# and its long sounds (> 2 x 16384 frames) make the streaming sound's frame ring wrap. The C18 clause is stated directly
+# by the implementation-side oracle stream_frames_not_loaded_frames_at_position (neutral index-coded streams: the frames
+# heard are the loaded sound's frames at the positions played, where a seek_to lands on the frame nearest to its
+# argument and a seek_by on the frame nearest to the handle's reported position + its argument).
+PROPS["C18"]["suites"] += [{"name": "stream", "quick": 300, "thorough": 3000}]
+PROPS["C18"]["level_text"] += (
+    "; LONG STREAMS: WAV files of more than 2 x 16384 frames are streamed to their end (the streaming sound's frame ring wraps "
+    "twice) and compared frame by frame with the static load; suite stream (shared with C09): scripted decoders that run AHEAD of "
+    "the playback, long sounds, seek_to / seek_by at any lead up to the full ring, with the oracle "
+    "stream_frames_not_loaded_frames_at_position stating the clause on the real code")
+# C06 ("a tween on a sound's parameter … progresses in real time"): at the level of the sound the clause is about WHERE
+# StaticSound::process updates its volume / playback-rate / panning parameters (before the early returns for a start time
+# not reached and for a non-advancing playback state). Suite static (shared with C03 / C04) drives real static sounds
+# through pause / resume / delayed starts with parameter tweens set in every state; the oracle
+# static_param_tween_not_in_real_time compares each output frame of a unit DC sound with reference kira::Parameters that
+# received the same commands and the real time of EVERY callback.
+PROPS["C06"]["suites"] += [{"name": "static", "quick": 800, "thorough": 15000}]
+PROPS["C06"]["level_text"] += (
+    "; AT THE LEVEL OF THE SOUND (suite static, bit-exact twin of the whole static sound + oracle "
+    "static_param_tween_not_in_real_time): a static sound's volume / panning tweens advance with the real time of every "
+    "callback - playing, fading, paused, waiting to resume, waiting for a delayed start - so that after a resume the value is "
+    "where the closed form says")
+# C05 ("anything scheduled for a clock time … is cancelled if the clock no longer exists"): suite clocksys also pauses
+# silent sounds and empty sub-tracks and resumes them at a clock time (resume_at), dropping the clock's handle before /
+# after the audio thread has read the resume; the handles must report Stopped (sound, then unloaded) / Paused (track):
+# oracles missing_clock_cancels_resume, cancelled_sound_not_unloaded, resume_at_clock_time_fires, resume_waits_for_clock_time.
+PROPS["C05"]["level_text"] += (
+    "; suite clocksys also drives pause -> resume_at(ClockTime) -> clock dropped (before / after the resume is read) on real "
+    "sounds and sub-tracks through the public API: the twin (SoundCore / Psm life cycles fed with the system model's Info) "
+    "agrees on every handle state, and the oracle missing_clock_cancels_resume states the clause on the handles (sound: Stopped "
+    "and unloaded by the next callback; track: stays Paused and can be resumed)")
+# C08 (exact capacity accounting "for every resource kind"): suite life builds sub-tracks OF sub-tracks, plain and spatial,
+# at any depth, every one with its own sound capacity and sub-track capacity (distinct values, 0 and 1 included), and checks
+# the limit-iff-full / exact-count / reported-capacity clauses on each storage.
+PROPS["C08"]["level_text"] += (
+    "; suite life also builds sub-tracks of (plain and spatial) sub-tracks at any depth, each with its own, mostly different, "
+    "sound_capacity / sub_track_capacity (0 and 1 included): creation succeeds iff fewer than capacity are alive or awaiting "
+    "removal in THAT storage, num_sounds() / num_sub_tracks() / sound_capacity() / sub_track_capacity() report the right "
+    "numbers (oracles limit_iff_full, count_exact, count_le_capacity, capacity_reported)")
